@@ -119,6 +119,7 @@ type env struct {
 // safeCompile is Compile with panics turned into an outcome: the harness must survive
 // whatever the code under test does.
 func safeCompile(src string) (jp *jmespath.JMESPath, out Outcome) {
+	simrt.OpBegin()
 	defer func() {
 		if r := recover(); r != nil {
 			jp = nil
@@ -205,7 +206,7 @@ func execOp(op Op, e *env) (out Outcome) {
 func recheck(outs []Outcome, upto int, when string) {
 	for i := 0; i < upto; i++ {
 		o := &outs[i]
-		if o.Kind == "value" && o.late == "" && !equalVal(o.raw, o.Val) {
+		if o.Kind == "value" && o.late == "" && !equalVal(deepCopy(o.raw), o.Val) {
 			o.late = "value was " + render(o.Val) + " when returned and reads " + render(o.raw) + " " + when
 		}
 	}
